@@ -253,7 +253,8 @@ func c06Probe(r *hx.Run, rng *rand.Rand, cw *c06World, a c06Art) {
 			p := c06Run(r, cw, &T, true, true, nil, tag, "probe:expiry-own-entry", "delta:"+d.String())
 			if d == time.Second {
 				// monotonicity: pointwise later time sets stay rejected
-				for _, dd := range []time.Duration{time.Second, time.Hour, 10 * 365 * 24 * time.Hour} {
+				// … also centuries later: 240 years after 2025 is past the last instant a 64-bit nanosecond count can express
+				for _, dd := range []time.Duration{time.Second, time.Hour, 10 * 365 * 24 * time.Hour, 240 * 365 * 24 * time.Hour, 290 * 365 * 24 * time.Hour} {
 					c06Run(r, cw, c06Later(T, c, dd), true, true, p, tag, "probe:monotone-own-entry", "later:"+dd.String())
 					c06Run(r, cw, c06Later(T, -1, dd), true, true, p, tag, "probe:monotone-all-entries", "later:"+dd.String())
 				}
